@@ -18,6 +18,10 @@ CLAIMED = {
  'C16': dict(tech="TLC: spec laws of the coefficient-vector model (MC_PolyVec) + TLC trace validation of all vector pairs of dims 0..4 over Z/2^k (k=1,2,3) under every operator, all index expressions, re-chunking/packing, sampled rings k in {0,8,32,64}",
              text="All vector pairs of dims 0..4 (k=1), 0..3/4 (k=2), 0..2 (k=3) under + - ^ & | in both orders, neg, a+(-a), shifts, concat; every int/slice/list index read and written on dims <= 4/5; split for k in {8,16,32,64} and every divisor, both endiannesses; pack; rings Z, 2^8, 2^32, 2^64 with dims to 20 sampled.  Each recorded event is judged by TLC against base/PolyVec, whose laws (commutativity, a+(-a)=0, agreement with integer arithmetic, frame condition) are model-checked exhaustively on small instances.",
              ref="DESIGN.md section 7 C16"),
+
+ 'C20': dict(tech="TLC: spec theorems (algorithmic successor = least greater arrangement; combination order; minimal subset) + TLC trace validation of every call on every list of length 0..5 over {1,2,3}, distinct lists to 6/7, every multiset of <= 4/5 weights and every target, each call repeated and interleaved",
+             text="Finite space enumerated completely within the bounds; TLC judges each recorded call against base/Combinat: multiset of arrangements (count, validity, multiplicity), list restored, lexicographic successor with wrap-around, combinations in index order, subset-sum answers (sub-collection, exact sum, failure iff unsolvable, minimal size for dynprog), at every position of a call history.",
+             ref="DESIGN.md section 7 C20"),
 }
 PENDING = "check not built yet in this tree (specification modules are being written; see DESIGN.md section 12 build order) - not claimed until its quick command runs clean"
 def main():
